@@ -178,6 +178,7 @@ func runC06(c *Cfg) {
 		it := make([]ItemScript, n)
 		for j := range it {
 			it[j].K = 1 + rg.IntN(budget+1)
+			it[j].Nil = rg.IntN(3) == 0 // a nil value is a legitimate success
 		}
 		cs := &BatchCase{Family: "stop-random", N: n, C: cc, Stop: true, SetMode: true, Budget: budget, Items: it, Shape: "results", Build: "builder", ExecStyle: []string{"result", "any"}[i%2], Gated: true, Policy: []string{"random", "last", "random", "first"}[i%4], PSeed: rg.Uint64()}
 		if i%3 == 0 {
@@ -312,6 +313,7 @@ func genItems(rnd interface{ IntN(int) int }, n, budget int, pattern int) []Item
 			it[j].K = 1 + rnd.IntN(budget+1)
 		}
 		it[j].FBE = rnd.IntN(2) == 0
+		it[j].Nil = rnd.IntN(5) == 0
 	}
 	return it
 }
@@ -344,6 +346,12 @@ func runC07(c *Cfg) {
 			cs.SleepUs = 20
 		}
 		cs.CtxLike = rg.IntN(4) == 0 // per-attempt timeouts: ordinary failures as far as the batch is concerned
+		if i%7 == 3 {
+			// the same node object was run before on a larger batch and the caller kept that run's result list
+			pn := n + 1 + rg.IntN(8)
+			cs.Prelude = &Prelude{N: pn, Items: genItems(rg, pn, budget, 0)}
+			cs.Family = "scripts-after-earlier-run"
+		}
 		return cs
 	}, func(i int, cs *BatchCase, o *BatchObs) {
 		r.Count("runs", 1)
@@ -389,6 +397,16 @@ func runC02Batch(c *Cfg) {
 			cs.Build, cs.FB = "compose", rg.IntN(3) != 0
 		}
 		cs.CtxLike = rg.IntN(4) == 0
+		if i%5 == 1 && cs.Build != "compose" {
+			// the node ran before with another budget and was then re-configured (builder method / option on its BaseNode)
+			pb := 1 + rg.IntN(8)
+			for pb == budget {
+				pb = 1 + rg.IntN(8)
+			}
+			cs.Prelude = &Prelude{N: 1 + rg.IntN(4), Budget: pb, C: cc, ReVia: []string{"option", "builder"}[rg.IntN(2)]}
+			cs.Prelude.Items = genItems(rg, cs.Prelude.N, pb, 0)
+			cs.Family = "c02-batch-reconfigured"
+		}
 		if i%3 == 0 && cc >= 2 {
 			// stop mode, gated, adversarial release order: an item is mid-retry while another one fails for good
 			cs.Stop, cs.SetMode, cs.Gated, cs.Policy, cs.SleepUs = true, true, true, "random", 0
